@@ -215,6 +215,8 @@ def run(chk):
             # R5 scans
             def visit(n, f=f, is_control=is_control, loc=loc):
                 k = n.get("k")
+                if k == "throw" and not is_control:
+                    chk.violated("R2", "%s: throw" % f["name"], "the library itself throws an exception", loc)
                 if k == "cast" and n.get("ck") in ("IntegralCast",) and F.T(n.get("t", -1)) and strip_cvref(F.T(n["t"])) in F.enums or \
                         (k == "cast" and n.get("ck") == "IntegralCast" and strip_cvref(F.T(n.get("t", -1)) or "").startswith("phq_verif_control::E")):
                     if is_control:
